@@ -355,6 +355,7 @@ type c05Input struct {
 	PrefixGrp bool   `json:"prefix_grouping"`
 	AndStyle  int    `json:"and_style"`
 	NumStyle  int    `json:"num_style,omitempty"` // spelling of number literals (see numText)
+	DurStyle  int    `json:"dur_style,omitempty"` // spelling of durations (see durText)
 	// negative cases
 	Negative string `json:"negative,omitempty"` // "static:<n>" or "corrupt:<class>:<pos>"
 	Text     string `json:"text,omitempty"`
@@ -383,8 +384,8 @@ func parseSafe(text string) (e logql.Expr, err error, pan string) {
 
 func c05Tokens(in c05Input) ([]tok, logql.Expr) {
 	e := getCorpus(in.Tier == "thorough")[in.Index]
-	numStyle = in.NumStyle
-	defer func() { numStyle = 0 }()
+	numStyle, durStyle = in.NumStyle, in.DurStyle
+	defer func() { numStyle, durStyle = 0, 0 }()
 	pr := &printer{redundant: in.Redundant, rangeLast: in.RangeLast, prefixGrp: in.PrefixGrp, andStyle: in.AndStyle}
 	return pr.expr(e), e
 }
@@ -665,7 +666,7 @@ func c05Run(r *vkit.Run) {
 			v.Style = style
 			variants = append(variants, v)
 		}
-		for _, opt := range []c05Input{{Redundant: true}, {RangeLast: true}, {PrefixGrp: true}, {AndStyle: 1}, {AndStyle: 2}, {Redundant: true, RangeLast: true, PrefixGrp: true, Style: 3}, {NumStyle: 1}, {NumStyle: 2}, {NumStyle: 3, Style: 1}} {
+		for _, opt := range []c05Input{{Redundant: true}, {RangeLast: true}, {PrefixGrp: true}, {AndStyle: 1}, {AndStyle: 2}, {Redundant: true, RangeLast: true, PrefixGrp: true, Style: 3}, {NumStyle: 1}, {NumStyle: 2}, {NumStyle: 3, Style: 1}, {DurStyle: 1}, {DurStyle: 2, Style: 2}} {
 			v := opt
 			v.Index, v.Tier = i, tier
 			variants = append(variants, v)
@@ -708,7 +709,7 @@ func c05Run(r *vkit.Run) {
 	}
 	r.Count("corruptions_generated", corruptions)
 	r.Count("negative_cases_that_must_be_rejected", mustRejected)
-	r.Note("bounds", fmt.Sprintf("%d generated ASTs (all stage kinds with 2-5 argument variants, pipelines of <=%d stages, 18 range-function variants x unwrap forms x groupings x offsets x [range] positions, vector aggregations incl. nested, binary operators x modifiers, label_replace, literals) x up to 14 textual renderings (8 layouts, redundant parentheses, range position, grouping position, and/,/juxtaposition, 4 spellings of number literals); %d static-rule violations; every single-token corruption (delete, duplicate, swap, stray bracket, split operator, quoted label name) of %s corpus queries", len(cp), map[bool]int{false: 2, true: 3}[thorough], len(c05Static), map[bool]string{false: "a fifth of the", true: "all"}[thorough]))
+	r.Note("bounds", fmt.Sprintf("%d generated ASTs (all stage kinds with 2-5 argument variants, pipelines of <=%d stages, 18 range-function variants x unwrap forms x groupings x offsets x [range] positions, vector aggregations incl. nested, binary operators x modifiers, label_replace, literals) x up to 14 textual renderings (8 layouts, redundant parentheses, range position, grouping position, and/,/juxtaposition, 4 spellings of number literals, 3 of durations); %d static-rule violations; every single-token corruption (delete, duplicate, swap, stray bracket, split operator, quoted label name) of %s corpus queries", len(cp), map[bool]int{false: 2, true: 3}[thorough], len(c05Static), map[bool]string{false: "a fifth of the", true: "all"}[thorough]))
 }
 
 func c05Replay(r *vkit.Run, v vkit.Violation) *vkit.Violation {
